@@ -47,6 +47,9 @@ func c14symbols(t *testing.T) (syms []c14sym, textLo, textHi uintptr) {
 	}
 	seen := map[uintptr]bool{}
 	for _, s := range all {
+		if s.Size == 0 { // markers such as runtime.etext, not functions
+			continue
+		}
 		if elf.ST_TYPE(s.Info) != elf.STT_FUNC || uintptr(s.Value) < textLo || uintptr(s.Value) >= textHi || seen[uintptr(s.Value)] {
 			continue
 		}
@@ -130,7 +133,7 @@ func TestVerifC14Text(t *testing.T) {
 			}
 		}
 		for _, m := range c14u.Maps() {
-			if m.Path != exe {
+			if strings.TrimSuffix(m.Path, " (deleted)") != strings.TrimSuffix(exe, " (deleted)") {
 				continue
 			}
 			if cur.Hi == m.Lo && cur.Perm == m.Perm { // the kernel may keep a split VMA: adjacent ranges with equal protection are one
@@ -144,6 +147,9 @@ func TestVerifC14Text(t *testing.T) {
 		return sb.String()
 	}
 	image0 := image()
+	if !strings.Contains(image0, "r-xp") {
+		t.Fatalf("cannot find the executable image in /proc/self/maps (exe=%q): %q", exe, image0)
+	}
 	textDiff := func() (n int, lo, hi uintptr) { // changed bytes of .text vs pristine
 		cur := c14raw(textLo, int(textHi-textLo))
 		if bytes.Equal(cur, pristine) {
@@ -213,6 +219,8 @@ func TestVerifC14Text(t *testing.T) {
 			} else {
 				out.Put(op.Idx, "ok len=%d | textdiff=%d", len(jd), n)
 			}
+		case "c14.hist":
+			c14hist(op, out, byName, textLo, textHi, pristine, image, image0)
 		case "c14.install", "c14.tramp":
 			// c14.install <entryOff> <funcSize> <orig13> name=<sym> [inject=1] [tramp=<sym>]
 			// ptr=1: any function symbol of the binary, patched by address with patch.Ptr
@@ -238,7 +246,43 @@ func TestVerifC14Text(t *testing.T) {
 			var tramp interface{}
 			var trampAddr uintptr
 			trampSize := 0
-			if tn := kv["tramp"]; tn != "" {
+			var mphRegion uintptr
+			var mphSnap []byte
+			mphN := 0
+			if v := kv["mph"]; v != "" {
+				// a placeholder of exactly N bytes of code with NO padding behind it, directly followed by a neighbour
+				// function, in a private executable mapping (a Go function whose code exactly fills its alignment slot
+				// looks like this); handed to goom as a func value whose code pointer is that address
+				mphN = int(vh.U64(v))
+				r, _, e := syscall.Syscall6(syscall.SYS_MMAP, 0, 3*4096, syscall.PROT_READ|syscall.PROT_WRITE, syscall.MAP_PRIVATE|syscall.MAP_ANON, ^uintptr(0), 0)
+				if e != 0 {
+					panic("c14 probe: mmap: " + e.Error())
+				}
+				reg := c14raw(r, 3*4096)
+				for k := range reg {
+					reg[k] = 0xcc
+				}
+				o := 4096
+				for k := 0; k < mphN-1; k++ {
+					reg[o+k] = 0x50 // PUSH AX
+				}
+				reg[o+mphN-1] = 0xc3
+				nb := o + mphN
+				if kv["pad"] == "1" { // ... or with 16 bytes of INT3 padding that belong to the placeholder's slot
+					nb += 16
+				}
+				for k := 0; k < 63; k++ {
+					reg[nb+k] = 0x58 // the neighbour: POP AX ...
+				}
+				reg[nb+63] = 0xc3
+				reg[nb+64+16] = 0xc3 // ends goom's scan of the INT3 padding
+				syscall.Syscall(syscall.SYS_MPROTECT, r, 3*4096, syscall.PROT_READ|syscall.PROT_EXEC)
+				mphRegion, mphSnap = r, append([]byte(nil), reg...)
+				code := &struct{ pc uintptr }{r + 4096}
+				tramp = *(*func(int, int) int)(unsafe.Pointer(&code))
+				trampAddr = r + 4096
+				trampSize, _ = bytecode.GetFuncSize(64, trampAddr, false)
+			} else if tn := kv["tramp"]; tn != "" {
 				tramp = zzC14Funcs[strings.TrimPrefix(tn, c14pkg)]
 				trampAddr = reflect.ValueOf(tramp).Pointer()
 				trampSize, _ = bytecode.GetFuncSize(64, trampAddr, false)
@@ -271,6 +315,18 @@ func TestVerifC14Text(t *testing.T) {
 				lock()
 				delete(patches, entry)
 				unlock()
+				if mphRegion != 0 {
+					changed := 0
+					reg := c14raw(mphRegion, 3*4096)
+					for k := range reg {
+						if reg[k] != mphSnap[k] {
+							changed++
+						}
+					}
+					n += changed // a refused install must not have written to the placeholder either
+					bytecode.ZZVerifC14ClearFuncSize(trampAddr)
+					syscall.Syscall(syscall.SYS_MUNMAP, mphRegion, 3*4096, 0)
+				}
 				out.Put(op.Idx, "refused:%s | panic=%s textdiff=%d image_same=%v pbase=%#x", c14errClass(err), pc, n, image() == image0, pbase)
 				continue
 			}
@@ -345,6 +401,24 @@ func TestVerifC14Text(t *testing.T) {
 			nApply, lo, hi := textDiff()
 			imgApplied := image() == image0
 			// every changed byte must be inside the entry jump or inside the placeholder's own body
+			trampDist := trampSize // the placeholder's own body: up to the next symbol, whatever goom's scan says
+			if sy, ok := byAddr[trampAddr]; ok && tramp != nil && sy.dist < trampDist {
+				trampDist = sy.dist
+			}
+			strayDist := 0
+			if mphRegion != 0 {
+				trampDist = mphN
+				if kv["pad"] == "1" {
+					trampDist += 16
+				}
+				reg := c14raw(mphRegion, 3*4096)
+				for k := range reg {
+					a := mphRegion + uintptr(k)
+					if reg[k] != mphSnap[k] && !(a >= trampAddr && a < trampAddr+uintptr(trampDist)) {
+						strayDist++
+					}
+				}
+			}
 			stray := 0
 			if nApply > 0 {
 				cur := c14raw(textLo, int(textHi-textLo))
@@ -357,6 +431,9 @@ func TestVerifC14Text(t *testing.T) {
 						inTramp := tramp != nil && a >= trampAddr && a < trampAddr+uintptr(trampSize)
 						if !inEntry && !inTramp {
 							stray++
+						}
+						if !inEntry && inTramp && a >= trampAddr+uintptr(trampDist) {
+							strayDist++
 						}
 					}
 				}
@@ -383,7 +460,10 @@ func TestVerifC14Text(t *testing.T) {
 			lock()
 			delete(patches, entry)
 			unlock()
-			if tramp != nil { // put the placeholder back for the next op (probe housekeeping, outside the markers)
+			if mphRegion != 0 {
+				bytecode.ZZVerifC14ClearFuncSize(trampAddr)
+				syscall.Syscall(syscall.SYS_MUNMAP, mphRegion, 3*4096, 0)
+			} else if tramp != nil { // put the placeholder back for the next op (probe housekeeping, outside the markers)
 				p := trampAddr &^ 4095
 				ln := (trampAddr+uintptr(trampSize)+4095)&^4095 - p
 				syscall.Syscall(syscall.SYS_MPROTECT, p, ln, syscall.PROT_READ|syscall.PROT_WRITE|syscall.PROT_EXEC)
@@ -391,11 +471,277 @@ func TestVerifC14Text(t *testing.T) {
 				syscall.Syscall(syscall.SYS_MPROTECT, p, ln, syscall.PROT_READ|syscall.PROT_EXEC)
 			}
 			_ = plo
-			out.Put(op.Idx, "apply=ok entry=%s unpatch=ok restored=%v lens=%d/%d | apply_ext=%s unpatch_ext=%s scribble=%v scr_hi=%d to_ok=%v n_patch=%d tramp_written=%d..%d n_apply=%d stray=%d stray_after=%d image_applied=%v image_after=%v pbase=%#x entry=%#x tramp=%#x trampsize=%d",
-				c14maskJump(after), restored, obLen, jbLen, applyExt, unpatchExt, scr, scrHi, toOK, nPatch, int64(plo)-int64(trampAddr), int64(phi)-int64(trampAddr), nApply, stray, strayAfter, imgApplied, image() == image0, pbase, entry, trampAddr, trampSize)
+			out.Put(op.Idx, "apply=ok entry=%s unpatch=ok restored=%v lens=%d/%d | apply_ext=%s unpatch_ext=%s scribble=%v scr_hi=%d to_ok=%v n_patch=%d tramp_written=%d..%d n_apply=%d stray=%d stray_after=%d image_applied=%v image_after=%v pbase=%#x entry=%#x tramp=%#x trampsize=%d trampdist=%d stray_dist=%d",
+				c14maskJump(after), restored, obLen, jbLen, applyExt, unpatchExt, scr, scrHi, toOK, nPatch, int64(plo)-int64(trampAddr), int64(phi)-int64(trampAddr), nApply, stray, strayAfter, imgApplied, image() == image0, pbase, entry, trampAddr, trampSize, trampDist, strayDist)
 		}
 	}
 	if n, _, _ := textDiff(); n != 0 {
 		t.Logf("text differs from pristine at exit: %d bytes", n)
 	}
+}
+
+// ---- histories ------------------------------------------------------------------------------------------------
+
+type c14target struct {
+	scr    []byte // T: what bytes [13, 13+len) behind the entry hold during the history (scribbled by the probe)
+	snap   []byte // M: the whole mapping as created
+	isM    bool
+	fn     interface{} // T: the function value
+	entry  uintptr
+	first  []byte
+	region uintptr // M: start of its 3-page mapping (0 once unmapped)
+}
+
+func c14pokeText(addr uintptr, b []byte) { // raw write into text, not through the code under test
+	p := addr &^ 4095
+	ln := (addr+uintptr(len(b))+4095)&^4095 - p
+	syscall.Syscall(syscall.SYS_MPROTECT, p, ln, syscall.PROT_READ|syscall.PROT_WRITE|syscall.PROT_EXEC)
+	copy(c14raw(addr, len(b)), b)
+	syscall.Syscall(syscall.SYS_MPROTECT, p, ln, syscall.PROT_READ|syscall.PROT_EXEC)
+}
+
+// c14hist runs one history `c14.hist <targets> | <steps>` on real text (and on private executable mappings for the M
+// targets), one marker pair per step (marker id 64*line+step).
+func c14hist(op vh.Op, out *vh.Out, byName map[string]c14sym, textLo, textHi uintptr, pristine []byte, image func() string, image0 string) {
+	if len(op.Toks) < 4 || op.Toks[2] != "|" {
+		out.Put(op.Idx, "bad-op")
+		return
+	}
+	var ts []*c14target
+	var mbases []string
+	for i, spec := range strings.Split(op.Toks[1], ",") {
+		f := strings.Split(spec, ":")
+		name := f[len(f)-1]
+		src, ok := byName[name]
+		fn, ok2 := zzC14Funcs[strings.TrimPrefix(name, c14pkg)]
+		if !ok || !ok2 {
+			out.Put(op.Idx, "no-such-target")
+			return
+		}
+		t := &c14target{fn: fn}
+		if f[0] == "M" {
+			off := uintptr(vh.U64(f[1]))
+			r, _, e := syscall.Syscall6(syscall.SYS_MMAP, 0, 3*4096, syscall.PROT_READ|syscall.PROT_WRITE, syscall.MAP_PRIVATE|syscall.MAP_ANON, ^uintptr(0), 0)
+			if e != 0 {
+				panic("c14 probe: mmap: " + e.Error())
+			}
+			reg := c14raw(r, 3*4096)
+			for k := range reg {
+				reg[k] = 0xcc
+			}
+			code := c14raw(src.addr, src.dist)
+			copy(reg[4096+off:], code)
+			if int(4096+off)+len(code)+16 < len(reg) {
+				reg[int(4096+off)+len(code)+16] = 0xc3 // ends goom's scan of the INT3 padding
+			}
+			syscall.Syscall(syscall.SYS_MPROTECT, r, 3*4096, syscall.PROT_READ|syscall.PROT_EXEC)
+			t.isM, t.region, t.entry = true, r, r+4096+off
+			t.snap = append([]byte(nil), reg...)
+			mbases = append(mbases, fmt.Sprintf("%d:%#x", i, r))
+		} else {
+			t.entry = reflect.ValueOf(fn).Pointer()
+			// make the extent of every later write observable: bytes [13, hi) of the target get a pattern that differs
+			// from the original in every byte (raw syscalls, not the code under test); restored at the end
+			hi := src.dist
+			if hi > 40 {
+				hi = 40
+			}
+			dup := false
+			for _, o := range ts {
+				dup = dup || o.entry == t.entry
+			}
+			bytecode.GetFuncSize(64, t.entry, false) // goom caches the scanned size: take it from the pristine bytes
+			if hi > 13 && !dup {
+				t.scr = make([]byte, hi-13)
+				for k := range t.scr {
+					t.scr[k] = pristine[t.entry-textLo+13+uintptr(k)] ^ 0xa5
+				}
+				c14pokeText(t.entry+13, t.scr)
+			}
+		}
+		t.first = append([]byte(nil), c14raw(t.entry, 13)...)
+		ts = append(ts, t)
+	}
+	guards := make([]*Guard, len(ts))
+	_ = guards
+	vec := func() string {
+		var sb strings.Builder
+		for _, t := range ts {
+			switch cur := []byte(nil); {
+			case t.isM && t.region == 0:
+				sb.WriteByte('u')
+			default:
+				cur = c14raw(t.entry, 13)
+				if bytes.Equal(cur, t.first) {
+					sb.WriteByte('o')
+				} else if cur[0] == 0x90 && cur[1] == 0x48 && cur[2] == 0xba && cur[11] == 0xff && cur[12] == 0x22 {
+					sb.WriteByte('j')
+				} else {
+					sb.WriteByte('?')
+				}
+			}
+		}
+		return sb.String()
+	}
+	stray := func() int { // bytes that differ from what they must be, outside the 13 entry bytes of the targets
+		cur := c14raw(textLo, int(textHi-textLo))
+		n := 0
+		for k := range cur {
+			if cur[k] != pristine[k] {
+				a := textLo + uintptr(k)
+				in := false
+				for _, t := range ts {
+					if !t.isM && a >= t.entry && a < t.entry+13 {
+						in = true
+					}
+					if !t.isM && a >= t.entry+13 && a < t.entry+13+uintptr(len(t.scr)) && cur[k] == t.scr[a-t.entry-13] {
+						in = true // the probe's scribble, intact
+					}
+				}
+				if !in {
+					n++
+				}
+			}
+		}
+		for _, t := range ts { // a scribbled byte that went back to the original was overwritten too
+			for k := range t.scr {
+				if c14raw(t.entry+13+uintptr(k), 1)[0] != t.scr[k] {
+					n++
+				}
+			}
+			if t.isM && t.region != 0 {
+				reg := c14raw(t.region, 3*4096)
+				for k := range reg {
+					a := t.region + uintptr(k)
+					if reg[k] != t.snap[k] && !(a >= t.entry && a < t.entry+13) {
+						n++
+					}
+				}
+			}
+		}
+		return n
+	}
+	lens := func() string {
+		var parts []string
+		for _, g := range guards {
+			if g == nil {
+				parts = append(parts, "-")
+			} else {
+				parts = append(parts, fmt.Sprintf("%d/%d", len(g.originBytes), len(g.jumpBytes)))
+			}
+		}
+		return strings.Join(parts, ",")
+	}
+	mperm := func() string {
+		ms := c14u.Maps()
+		var sb strings.Builder
+		for _, t := range ts {
+			if t.isM && t.region != 0 {
+				for k := uintptr(0); k < 3; k++ {
+					sb.WriteString(c14u.PermLetter(ms, t.region+k*4096))
+				}
+				sb.WriteByte('/')
+			}
+		}
+		return sb.String()
+	}
+	var cmp, extra []string
+	for sn, st := range op.Toks[3:] {
+		if sn >= 60 {
+			break
+		}
+		f := strings.SplitN(st, ".", 2)
+		idx := -1
+		if len(f) == 2 {
+			idx = int(vh.U64(f[1]))
+			if idx >= len(ts) {
+				cmp = append(cmp, st+"=bad-step")
+				break
+			}
+		}
+		res := "ok"
+		c14u.Begin(64*op.Idx + sn)
+		func() {
+			defer func() {
+				if r := recover(); r != nil {
+					res = "panic"
+				}
+			}()
+			switch f[0] {
+			case "patch":
+				var g *Guard
+				var err error
+				if ts[idx].isM {
+					g, err = Ptr(ts[idx].entry, c14repl)
+				} else {
+					g, err = Patch(ts[idx].fn, c14repl)
+				}
+				if err != nil {
+					res = "refused:" + c14errClass(err)
+				} else {
+					guards[idx] = g
+				}
+			case "apply":
+				if guards[idx] == nil {
+					res = "noop"
+				} else {
+					guards[idx].Apply()
+				}
+			case "unpatch":
+				if guards[idx] == nil || !guards[idx].applied {
+					res = "noop"
+				} else {
+					guards[idx].UnpatchWithLock()
+				}
+			case "restore":
+				if guards[idx] == nil || !guards[idx].applied {
+					res = "noop"
+				} else {
+					guards[idx].Restore()
+				}
+			case "unpatchfn":
+				lock()
+				defer unlock()
+				if !unpatchValue(ts[idx].entry) {
+					res = "noop"
+				}
+			case "unpatchall":
+				lock()
+				defer unlock()
+				UnpatchAll()
+			case "unmap":
+				if ts[idx].isM && ts[idx].region != 0 {
+					syscall.Syscall(syscall.SYS_MUNMAP, ts[idx].region, 3*4096, 0)
+					ts[idx].region = 0
+				}
+			default:
+				res = "bad-step"
+			}
+		}()
+		c14u.End(64*op.Idx + sn)
+		cmp = append(cmp, fmt.Sprintf("%s=%s{%s;%s}", st, res, vec(), lens()))
+		extra = append(extra, fmt.Sprintf("%d:img=%v,stray=%d,mperm=%s", sn, image() == image0, stray(), mperm()))
+	}
+	// ---- housekeeping: forget everything, put the text back
+	lock()
+	for k := range patches {
+		delete(patches, k)
+	}
+	unlock()
+	for _, t := range ts {
+		if t.isM {
+			bytecode.ZZVerifC14ClearFuncSize(t.entry) // the address may be reused by another mapping
+			if t.region != 0 {
+				syscall.Syscall(syscall.SYS_MUNMAP, t.region, 3*4096, 0)
+			}
+		} else {
+			if !bytes.Equal(c14raw(t.entry, 13), t.first) {
+				c14pokeText(t.entry, t.first)
+			}
+			if len(t.scr) > 0 {
+				c14pokeText(t.entry+13, pristine[t.entry-textLo+13:t.entry-textLo+13+uintptr(len(t.scr))])
+			}
+		}
+	}
+	out.Put(op.Idx, "%s | mbases=%s %s", strings.Join(cmp, " "), strings.Join(mbases, ","), strings.Join(extra, " "))
 }
